@@ -814,6 +814,80 @@ def rule_integer_arrays_stay_integer(eng, rep, rule="C20-7.integer-valued-result
     rep.require_count(rule, "(re)bindings of integer Model arrays", n, 4)
 
 
+def rule_to_dict_survives_none_fields(eng, rep, rule="C20-8.to_dict-converts-no-field-that-a-constructor-call-leaves-None"):
+    """An input-error result is built with None in the solution fields (OptimResults(None, None, None, None, 0, 0, 0, flag, msg, None, None)).  to_dict must serialise
+    *every* result: a numeric conversion (float(), int()) or a method call (.tolist()) on a field that some constructor call of the package leaves None needs a
+    None test of that field -- as its siblings a line above and below already have (contradiction rule)."""
+    td = eng.fn("solver.OptimResults.to_dict")
+    init = eng.fn("solver.OptimResults.__init__")
+    selfn = td.posparams[0]
+    # fields that a constructor call can leave None: parameter bound to a literal None (or to a name that may be None: not followed here), stored as self.<field> = <param>
+    nullable_params = set()
+    nctor = 0
+    for ci in eng.calls_to(init.fid):
+        nctor += 1
+        b = bind_call(ci.node, init, True)
+        for pn, e in b.params.items():
+            if isinstance(e, ast.AST) and is_none(e):
+                nullable_params.add(pn)
+    iself = init.posparams[0]
+    field_of = {}
+    for node in eng.prog.own_nodes(init):
+        if isinstance(node, ast.Assign) and len(node.targets) == 1 and isinstance(node.value, ast.Name) and node.value.id in init.all_params:
+            f = _self_attr(node.targets[0], iself)
+            if f:
+                field_of[node.value.id] = f
+    nullable = set(field_of[p] for p in nullable_params if p in field_of)
+    if not rep.require_count(rule, "constructor calls of OptimResults", nctor, 2):
+        return
+    if not rep.require_count(rule, "fields a constructor call leaves None", len(nullable), 3):
+        return
+    cfg = eng.cfg(td)
+    n = 0
+    for node in eng.prog.own_nodes(td):
+        f = None
+        what = None
+        if isinstance(node, ast.Call) and isinstance(node.func, ast.Name) and node.func.id in ("float", "int", "len", "str") and node.args and node.func.id != "str":
+            f = _self_attr(node.args[0], selfn)
+            what = "%s(self.%s)" % (node.func.id, f)
+        elif isinstance(node, ast.Call) and isinstance(node.func, ast.Attribute) and _self_attr(node.func.value, selfn):
+            f = _self_attr(node.func.value, selfn)
+            what = "self.%s.%s()" % (f, node.func.attr)
+        if f is None or f not in nullable:
+            continue
+        n += 1
+        # guarded by an enclosing conditional expression / if on `self.f is not None`
+        guarded = False
+        cur = node
+        for _ in range(6):
+            par = eng.prog.parent.get(id(cur))
+            if par is None:
+                break
+            if isinstance(par, ast.IfExp) and par.body is cur or (isinstance(par, ast.IfExp) and any(x is node for x in ast.walk(par.body))):
+                at = atom_of(par.test, True)
+                if at.op == "isnot" and _self_attr(at.lhs, selfn) == f and is_none(at.rhs):
+                    guarded = True
+            if isinstance(par, ast.IfExp) and any(x is node for x in ast.walk(par.orelse)):
+                at = atom_of(par.test, True)
+                if at.op == "is" and _self_attr(at.lhs, selfn) == f and is_none(at.rhs):
+                    guarded = True
+            cur = par
+        if not guarded:
+            try:
+                gs = [a for (_b, a) in guards_of(cfg, cfg.cfg_node(node))]
+                guarded = any(g.op == "isnot" and _self_attr(g.lhs, selfn) == f and is_none(g.rhs) for g in gs)
+            except Exception:
+                pass
+        site = eng.where(td, eng.prog.stmt_of(node))
+        if guarded:
+            rep.ok(rule, site, "%s only where self.%s is not None" % (what, f))
+        else:
+            rep.bad(rule, site, "solver.OptimResults.to_dict|converts-none|%s" % f,
+                    "`%s` runs for every result, but the input-error result is constructed with %s = None: to_dict raises TypeError / AttributeError instead of serialising it"
+                    % (what, f))
+    rep.require_count(rule, "conversions of nullable fields in to_dict", n, 2)      # (the two scalar fields; the array fields may go through a helper with its own None test)
+
+
 def run(eng, rep):
     rep.explain("C20: to_dict keys = from_dict keys = constructor fields, each routed to the field of the same name (T9/T4); "
                 "to_dict emits only None/tolist()/int()/float()/str()/nested dict and the replace_nan branch covers the whole dict, "
@@ -831,3 +905,4 @@ def run(eng, rep):
     rep.guarded(rule_integer_arrays_stay_integer, eng, rep)
     rep.guarded(rule_nan_replacement_is_total, eng, rep)
     rep.guarded(rule_table_rows_uniquely_labelled, eng, rep)
+    rep.guarded(rule_to_dict_survives_none_fields, eng, rep)
